@@ -78,9 +78,9 @@ K('C10.e', property='C10', engine='symex', harness='C04/neigh.cpp', entries=['k_
 _KN_X = ['InvSigma', 'InvPriorCov', 'XtInvSigma', 'Sigmac', 'Beta', 'InvSigmaSigma0', 'Y0', 'Sigma0p', 'Sigma00p', 'Sigma00pp', 'X0p', 'Z0p', 'Y0p',
          'Lambda0', 'LambdaSK', 'MuUK', 'LambdaUK', 'VarZSK', 'VarZUK', 'Stdv', 'Zstar']
 # pass pipeline without the late simplifycfg<sink-common-insts>: it turns 'flagSK ? _VarZSK : _VarZUK' of getVarianceZstarMat into one load through a selected address
-# five kernels so that the property runner decides them in parallel: ~8500 obligations in all, most of them 'null pointer dereference' / 'use after free' on the
-# present/absent inputs and memo fields; the requests at the top of the dependency graph (last three groups) carry 80% of them
-_KN_GROUPS = (_KN_X[0:7], _KN_X[7:14], _KN_X[14:17], _KN_X[17:19], _KN_X[19:21])
+# six kernels so that the property runner decides them in parallel: ~8500 obligations in all, most of them 'null pointer dereference' / 'use after free' on the
+# present/absent inputs and memo fields; the requests at the top of the dependency graph (last four groups) carry 80% of them
+_KN_GROUPS = (_KN_X[0:7], _KN_X[7:14], _KN_X[14:17], _KN_X[17:19], _KN_X[19:20], _KN_X[20:21])
 for _i, _grp in enumerate(_KN_GROUPS):
   K('C10.a3.%d' % (_i + 1), property='C10', engine='symex', harness='C10/kneed.cpp', entries=['k_need_' + _x for _x in _grp], tus=_kc._KC_TUS, passes=_COW_PASSES,
     bounds={'quick': 'fresh KrigingCalcul (real constructor, dual form or not), inputs given through the real setters setData/setLHS/setRHS/setVar/setColCokUnique/setBayes '
